@@ -1,12 +1,20 @@
-"""Machinery of the C11 rules (part 1): def-use on a function (usually an inlined view), expansion of locals and of straight-line
-helpers into expressions.
+"""Machinery of the C11 rules (part 1): def-use on a function (usually an inlined view), expansion of locals and of small
+helpers into expressions, class-specialised views.
 
     fn = Fn(repo, view)
-    fn.reaching(name, node)     reaching definitions of a name at a node (scope aware: comprehensions, lambdas, parameters)
-    fn.expand(expr)             copy of `expr` with single-definition locals / straight-line helper calls substituted
-    fn.callee(call)             unique repo function a call resolves to (through copies)
+    fn.reaching(name, node)     reaching definitions of a name at a node (scope aware: comprehensions, lambdas, parameters,
+                                free variables of nested functions; `a, b = map(f, (x, y))` is two definitions)
+    fn.expand(expr)             copy of `expr` with single-definition locals substituted, calls of small helpers replaced by their
+                                return expression (private / nested / same-module helpers, methods of small private value classes;
+                                straight-line bodies and if/return chains; lambdas and functools.partial applied), and projections
+                                simplified (`(a, b)[0]`, `T(x, y).field`, properties of small private classes)
+    fn.conds_all(node)          control conditions of a node (kept when the tested object changes later)
+    fn.callee(call)             unique repo function a call resolves to (through copies, nested defs of a view)
+    class_view(repo, m, C)      inlined view of method m as run on an instance of the concrete class C (self / super() calls are
+                                resolved by C's MRO, so template methods are inlined with the implementation that really runs)
 
 Copies made here carry `_orig = (FuncInfo, original node)` so that types / callees can be resolved where the code was written.
+Nothing of the analysed repository is imported or executed.
 """
 
 from __future__ import annotations
